@@ -77,6 +77,31 @@ Theorem C06_decode_sequence : forall (items : list item) (fuel : nat),
 Proof. exact decode_sequence. Qed.
 Print Assumptions C06_decode_sequence.
 
+(* the property as a statement about the byte stream: decode (encode r1 ++ ... ++ encode rn ++ k)
+   = [r1; ...; rn] ++ decode k, for ANY list of well-formed replies - no bound on the number of
+   lines, the length of a line or the size of a reply (so also for replies that fill a block, a
+   buffer or a segment exactly) - and any following stream k: no residue between two replies,
+   nothing of k consumed *)
+Theorem C06_decode_reply_stream_then : forall (rs : list reply) (k : text) (f : nat),
+  Forall reply_ok rs ->
+  parse_seq (length rs + f) (split_lines (replies_wire rs ++ k))
+  = map decoded rs ++ parse_seq f (split_lines k).
+Proof. exact decode_reply_stream_then. Qed.
+Print Assumptions C06_decode_reply_stream_then.
+
+Theorem C06_decode_reply_stream : forall (rs : list reply),
+  Forall reply_ok rs ->
+  parse_seq (S (length rs)) (split_lines (replies_wire rs)) = map decoded rs ++ [PReset].
+Proof. exact decode_reply_stream. Qed.
+Print Assumptions C06_decode_reply_stream.
+
+(* non-vacuity: two replies back to back (a multi-line one, then a single-line one) *)
+Example C06_reply_stream_example :
+  parse_seq 3 (split_lines (replies_wire
+     [([50;49;52], [[97];[98]], false); ([50;48;48], [[99]], false)]))
+  = [POk [50;49;52] [[45;97];[32;98]] []; POk [50;48;48] [[32;99]] []; PReset].
+Proof. vm_compute. reflexivity. Qed.
+
 (* two successive command() calls on one stream, ANY expected / wait masks (overlapping or not):
    the second call starts exactly after the reply the first one stopped at - also when the first
    one raised StatusCodeError - so a reply matching both a wait and an expected mask is passed
